@@ -1,0 +1,375 @@
+//! Sorted-table facade: build a table file with `TableWriter` exactly as flush / compaction do,
+//! open it with `Table::new`, and expose point lookup, cursors, range predicates, the layout
+//! the writer actually produced, the comparators' separator/successor and the bloom filter.
+
+use std::fs::File as SysFile;
+use std::ops::Bound;
+use std::path::Path;
+use std::sync::Arc;
+
+use crate::sstable::block::BlockHandle;
+use crate::sstable::bloom::LevelDBBloomFilter;
+use crate::sstable::table::{IndexType, Table, TableIterator, TableWriter};
+use crate::vfs::File;
+use crate::{
+	BytewiseComparator,
+	Comparator,
+	CompressionType,
+	FilterPolicy,
+	InternalKey,
+	InternalKeyComparator,
+	InternalKeyKind,
+	InternalKeyRange,
+	LSMIterator,
+	Options,
+};
+
+/// Table-format options as plain data.
+#[derive(Debug, Clone)]
+pub struct TableOpts {
+	pub block_size: usize,
+	pub restart_interval: usize,
+	pub index_partition_size: usize,
+	pub snappy: bool,
+	/// `Some(bits_per_key)` = LevelDB bloom filter policy, `None` = no filter policy
+	pub filter_bits: Option<usize>,
+	/// target level handed to `TableWriter::new` (selects the compression entry)
+	pub level: u8,
+}
+
+/// One versioned entry: (user key, seq, kind byte, timestamp, value).
+pub type Entry = (Vec<u8>, u64, u8, u64, Vec<u8>);
+/// A decoded internal key: (user key, seq, kind byte, timestamp).
+pub type KeyParts = (Vec<u8>, u64, u8, u64);
+
+/// A user-key bound of a range.
+#[derive(Debug, Clone)]
+pub enum UBound {
+	Unbounded,
+	Included(Vec<u8>),
+	Excluded(Vec<u8>),
+}
+
+fn lsm_options(o: &TableOpts) -> Arc<Options> {
+	let mut opts = Options::new()
+		.with_block_size(o.block_size)
+		.with_block_restart_interval(o.restart_interval)
+		.with_index_partition_size(o.index_partition_size);
+	opts = match o.filter_bits {
+		Some(b) => opts.with_filter_policy(Some(Arc::new(LevelDBBloomFilter::new(b)))),
+		None => opts.with_filter_policy(None),
+	};
+	opts = if o.snappy {
+		opts.with_compression_per_level(vec![CompressionType::SnappyCompression])
+	} else {
+		opts.without_compression()
+	};
+	Arc::new(opts)
+}
+
+fn parts(k: &InternalKey) -> KeyParts {
+	(k.user_key.clone(), k.seq_num(), k.trailer as u8, k.timestamp)
+}
+
+fn parts_of_encoded(k: &[u8]) -> KeyParts {
+	parts(&InternalKey::decode(k))
+}
+
+/// Encodes an internal key exactly as the crate does.
+pub fn encode_key(user_key: &[u8], seq: u64, kind: u8, ts: u64) -> Vec<u8> {
+	InternalKey::new(user_key.to_vec(), seq, InternalKeyKind::from(kind), ts).encode()
+}
+
+/// Decodes an encoded internal key (must be at least 16 bytes).
+pub fn decode_key(enc: &[u8]) -> Option<KeyParts> {
+	if enc.len() < 16 {
+		return None;
+	}
+	Some(parts_of_encoded(enc))
+}
+
+/// `InternalKeyComparator::compare` on two encoded keys: -1, 0, 1.
+pub fn compare_internal(a: &[u8], b: &[u8]) -> i32 {
+	let c = InternalKeyComparator::new(Arc::new(BytewiseComparator::default()));
+	c.compare(a, b) as i32
+}
+
+/// Writes `entries` into a table file at `path` the way flush does:
+/// `TableWriter::new(file, id, opts, level)`, `add` per entry, `finish`.
+/// The entries must be strictly increasing in the internal-key order (checked here, because the
+/// writer asserts it).
+pub fn build(path: &Path, id: u64, o: &TableOpts, entries: &[Entry]) -> Result<usize, String> {
+	let opts = lsm_options(o);
+	let cmp = Arc::clone(&opts.internal_comparator);
+	for w in entries.windows(2) {
+		let a = encode_key(&w[0].0, w[0].1, w[0].2, w[0].3);
+		let b = encode_key(&w[1].0, w[1].1, w[1].2, w[1].3);
+		if cmp.compare(&a, &b) != std::cmp::Ordering::Less {
+			return Err("entries-not-strictly-sorted".into());
+		}
+	}
+	let file = SysFile::create(path).map_err(|e| e.to_string())?;
+	let mut w = TableWriter::new(file, id, Arc::clone(&opts), o.level);
+	for (k, seq, kind, ts, v) in entries {
+		let key = InternalKey::new(k.clone(), *seq, InternalKeyKind::from(*kind), *ts);
+		w.add(key, v).map_err(|e| e.to_string())?;
+	}
+	w.finish().map_err(|e| e.to_string())
+}
+
+/// An opened table.
+pub struct TableH {
+	table: Arc<Table>,
+}
+
+/// Opens a table file as the engine does after a flush (`Table::new`). A fresh `Options` (hence a
+/// fresh block cache) is created per call.
+pub fn open(path: &Path, id: u64, o: &TableOpts) -> Result<TableH, String> {
+	let opts = lsm_options(o);
+	let file = crate::vfs::open_for_sync(path).map_err(|e| e.to_string())?;
+	let file: Arc<dyn File> = Arc::new(file);
+	let size = file.size().map_err(|e| e.to_string())?;
+	let table = Table::new(id, opts, file, size).map_err(|e| e.to_string())?;
+	Ok(TableH {
+		table: Arc::new(table),
+	})
+}
+
+/// One data block as the writer laid it out.
+#[derive(Debug, Clone)]
+pub struct BlockInfo {
+	/// index entry key (separator) of this block, encoded
+	pub index_key: Vec<u8>,
+	pub first_key: Vec<u8>,
+	pub last_key: Vec<u8>,
+	pub entries: usize,
+}
+
+/// One index partition: its key in the top-level index and its data blocks.
+#[derive(Debug, Clone)]
+pub struct PartitionInfo {
+	pub top_key: Vec<u8>,
+	pub blocks: Vec<BlockInfo>,
+}
+
+impl TableH {
+	/// Point lookup with the key `Snapshot::get` builds: (user key, snapshot seq, Set, 0).
+	pub fn get(&self, user_key: &[u8], snapshot_seq: u64) -> Result<Option<(KeyParts, Vec<u8>)>, String> {
+		let ikey = InternalKey::new(user_key.to_vec(), snapshot_seq, InternalKeyKind::Set, 0);
+		match self.table.get(&ikey) {
+			Err(e) => Err(e.to_string()),
+			Ok(None) => Ok(None),
+			Ok(Some((k, v))) => Ok(Some((parts(&k), v))),
+		}
+	}
+
+	/// Walks the top-level index, every partition and every data block.
+	pub fn layout(&self) -> Result<Vec<PartitionInfo>, String> {
+		let IndexType::Partitioned(index) = &self.table.index_block;
+		let mut out = Vec::new();
+		for bh in &index.blocks {
+			let pblock = index.load_block(bh).map_err(|e| e.to_string())?;
+			let mut pit = pblock.iter().map_err(|e| e.to_string())?;
+			pit.seek_to_first().map_err(|e| e.to_string())?;
+			let mut blocks = Vec::new();
+			while pit.is_valid() {
+				let index_key = pit.key_bytes().to_vec();
+				let (handle, _) = BlockHandle::decode(pit.value_bytes()).map_err(|e| e.to_string())?;
+				let dblock = self.table.read_block(&handle).map_err(|e| e.to_string())?;
+				let mut dit = dblock.iter().map_err(|e| e.to_string())?;
+				dit.seek_to_first().map_err(|e| e.to_string())?;
+				let mut n = 0;
+				let mut first_key = Vec::new();
+				let mut last_key = Vec::new();
+				while dit.is_valid() {
+					if n == 0 {
+						first_key = dit.key_bytes().to_vec();
+					}
+					last_key = dit.key_bytes().to_vec();
+					n += 1;
+					if !dit.advance().map_err(|e| e.to_string())? {
+						break;
+					}
+				}
+				blocks.push(BlockInfo {
+					index_key,
+					first_key,
+					last_key,
+					entries: n,
+				});
+				if !pit.advance().map_err(|e| e.to_string())? {
+					break;
+				}
+			}
+			out.push(PartitionInfo {
+				top_key: bh.separator_key.clone(),
+				blocks,
+			});
+		}
+		Ok(out)
+	}
+
+	/// (smallest_point, largest_point) of the table metadata.
+	pub fn key_range(&self) -> (Option<KeyParts>, Option<KeyParts>) {
+		(self.table.meta.smallest_point.as_ref().map(parts), self.table.meta.largest_point.as_ref().map(parts))
+	}
+
+	/// Number of entries recorded in the table properties.
+	pub fn num_entries(&self) -> u64 {
+		self.table.meta.properties.num_entries
+	}
+
+	pub fn is_key_in_key_range(&self, user_key: &[u8], seq: u64) -> bool {
+		let ikey = InternalKey::new(user_key.to_vec(), seq, InternalKeyKind::Set, 0);
+		self.table.is_key_in_key_range(&ikey)
+	}
+
+	pub fn is_before_range(&self, lo: &UBound, hi: &UBound) -> bool {
+		self.table.is_before_range(&internal_range(lo, hi))
+	}
+
+	pub fn is_after_range(&self, lo: &UBound, hi: &UBound) -> bool {
+		self.table.is_after_range(&internal_range(lo, hi))
+	}
+
+	pub fn overlaps_with_range(&self, lo: &UBound, hi: &UBound) -> bool {
+		self.table.overlaps_with_range(&internal_range(lo, hi))
+	}
+
+	/// The table filter's answer for a user key (`None` when the table has no filter block).
+	pub fn filter_may_contain(&self, user_key: &[u8]) -> Option<bool> {
+		self.table.filter_reader.as_ref().map(|f| f.may_contain(user_key, 0))
+	}
+
+	/// A cursor over `table.iter(range)`; `None` = `iter(None)`.
+	pub fn cursor(&self, range: Option<(UBound, UBound)>) -> Result<Cursor, String> {
+		let table = Arc::clone(&self.table);
+		let r = range.map(|(lo, hi)| internal_range(&lo, &hi));
+		let it = table.iter(r).map_err(|e| e.to_string())?;
+		// SAFETY: the iterator borrows the `Table` inside the `Arc` stored in the same struct;
+		// the `Arc` keeps it alive and at a fixed address, `it` is declared first and therefore
+		// dropped before `_table`.
+		let it: TableIterator<'static> = unsafe { std::mem::transmute::<TableIterator<'_>, TableIterator<'static>>(it) };
+		Ok(Cursor {
+			it,
+			_table: table,
+		})
+	}
+}
+
+fn as_bound(b: &UBound) -> Bound<&[u8]> {
+	match b {
+		UBound::Unbounded => Bound::Unbounded,
+		UBound::Included(k) => Bound::Included(k.as_slice()),
+		UBound::Excluded(k) => Bound::Excluded(k.as_slice()),
+	}
+}
+
+fn internal_range(lo: &UBound, hi: &UBound) -> InternalKeyRange {
+	crate::user_range_to_internal_range(as_bound(lo), as_bound(hi))
+}
+
+/// A table cursor that lives across calls.
+pub struct Cursor {
+	it: TableIterator<'static>,
+	_table: Arc<Table>,
+}
+
+/// Position of a cursor after an operation.
+pub type CurPos = Option<(KeyParts, Vec<u8>)>;
+
+impl Cursor {
+	fn pos(&self) -> Result<CurPos, String> {
+		if !self.it.valid() {
+			return Ok(None);
+		}
+		let k = self.it.key();
+		let kp = (k.user_key().to_vec(), k.seq_num(), k.trailer() as u8, k.timestamp());
+		let v = self.it.value_encoded().map_err(|e| e.to_string())?.to_vec();
+		Ok(Some((kp, v)))
+	}
+	pub fn seek_first(&mut self) -> Result<(bool, CurPos), String> {
+		let r = self.it.seek_first().map_err(|e| e.to_string())?;
+		Ok((r, self.pos()?))
+	}
+	pub fn seek_last(&mut self) -> Result<(bool, CurPos), String> {
+		let r = self.it.seek_last().map_err(|e| e.to_string())?;
+		Ok((r, self.pos()?))
+	}
+	/// `seek` to the encoded internal key (user key, seq, kind, ts).
+	pub fn seek(&mut self, user_key: &[u8], seq: u64, kind: u8, ts: u64) -> Result<(bool, CurPos), String> {
+		let t = encode_key(user_key, seq, kind, ts);
+		let r = self.it.seek(&t).map_err(|e| e.to_string())?;
+		Ok((r, self.pos()?))
+	}
+	pub fn next(&mut self) -> Result<(bool, CurPos), String> {
+		let r = self.it.next().map_err(|e| e.to_string())?;
+		Ok((r, self.pos()?))
+	}
+	pub fn prev(&mut self) -> Result<(bool, CurPos), String> {
+		let r = self.it.prev().map_err(|e| e.to_string())?;
+		Ok((r, self.pos()?))
+	}
+	pub fn valid(&self) -> bool {
+		self.it.valid()
+	}
+}
+
+/// `BytewiseComparator::separator` on raw byte strings.
+pub fn bytewise_separator(a: &[u8], b: &[u8]) -> Vec<u8> {
+	BytewiseComparator::default().separator(a, b)
+}
+
+/// `BytewiseComparator::successor`.
+pub fn bytewise_successor(a: &[u8]) -> Vec<u8> {
+	BytewiseComparator::default().successor(a)
+}
+
+/// `InternalKeyComparator::separator` on encoded internal keys (each at least 16 bytes).
+pub fn internal_separator(a: &[u8], b: &[u8]) -> Vec<u8> {
+	InternalKeyComparator::new(Arc::new(BytewiseComparator::default())).separator(a, b)
+}
+
+/// `InternalKeyComparator::successor` on an encoded internal key.
+pub fn internal_successor(a: &[u8]) -> Vec<u8> {
+	InternalKeyComparator::new(Arc::new(BytewiseComparator::default())).successor(a)
+}
+
+/// `LevelDBBloomFilter::create_filter`.
+pub fn bloom_create(bits_per_key: usize, keys: &[Vec<u8>]) -> Vec<u8> {
+	LevelDBBloomFilter::new(bits_per_key).create_filter(keys)
+}
+
+/// `LevelDBBloomFilter::may_contain`.
+pub fn bloom_may_contain(bits_per_key: usize, filter: &[u8], key: &[u8]) -> bool {
+	LevelDBBloomFilter::new(bits_per_key).may_contain(filter, key)
+}
+
+/// The bloom filter's hash function.
+pub fn bloom_hash(data: &[u8], seed: u32) -> u32 {
+	crate::sstable::bloom::hash(data, seed)
+}
+
+/// Kind byte numbering and framing constants as compiled:
+/// (Delete, SoftDelete, Set, Merge, LogData, RangeDelete, Replace, Separator, Max, Invalid,
+///  SEQ_NUM_MAX, TIMESTAMP_MAX, BLOCK_CKSUM_LEN, BLOCK_COMPRESS_LEN).
+pub fn params() -> ([u8; 10], u64, u64, usize, usize) {
+	(
+		[
+			InternalKeyKind::Delete as u8,
+			InternalKeyKind::SoftDelete as u8,
+			InternalKeyKind::Set as u8,
+			InternalKeyKind::Merge as u8,
+			InternalKeyKind::LogData as u8,
+			InternalKeyKind::RangeDelete as u8,
+			InternalKeyKind::Replace as u8,
+			InternalKeyKind::Separator as u8,
+			InternalKeyKind::Max as u8,
+			InternalKeyKind::Invalid as u8,
+		],
+		crate::INTERNAL_KEY_SEQ_NUM_MAX,
+		crate::INTERNAL_KEY_TIMESTAMP_MAX,
+		crate::sstable::table::BLOCK_CKSUM_LEN,
+		crate::sstable::table::BLOCK_COMPRESS_LEN,
+	)
+}
